@@ -23,6 +23,9 @@ let sep_pairs = [
   ("ab\x01\xffzz", "ab\x02\x01zz"); ("ab\xff\xffzz", "ac\x00\x00zz"); ("l\xffqq", "m\x00zz");
   ("0010zz", "0012zz"); ("avocado", "axe"); ("", "a"); ("\xff", "\xff\x00"); ("\xff\xfe", "\xff\xff\x01");
   ("ab\x00\xff\x01", "ab\x01\x00\x01"); ("k\x7f\xffaaa", "k\x80\x00aaa");
+  (* the two-byte branch at the edge of the shorter key: exactly two bytes left from the first difference *)
+  ("ab\xff\x07", "ac\x00"); ("a\xff", "b\x00"); ("ab\xff", "ac\x00"); ("abc\xff\xff", "abd\x00"); ("k\x01\xff", "k\x02\x00\x01");
+  ("k\x01\xff\x05", "k\x02\x00"); ("\x00\xff", "\x01\x00"); ("zz\xfe\xff", "zz\xff\x00"); ("c\xffzz", "d\x10x"); ("q\x10\xff\xff", "q\x11\x00\x00");
 ]
 
 let rvalue st ~big =
